@@ -4,3 +4,70 @@ from __future__ import annotations
 from pathlib import Path
 
 from .gen_tables import lean_str_list, literal, table  # noqa: F401
+
+
+def lean_char(c: str) -> str:
+    """a Lean `Char` literal"""
+    special = {"'": "\\'", "\\": "\\\\", "\n": "\\n", "\t": "\\t", "\r": "\\r"}
+    if c in special:
+        return "'" + special[c] + "'"
+    if 32 <= ord(c) < 127:
+        return f"'{c}'"
+    return f"(Char.ofNat {ord(c)})"
+
+
+def lean_char_list(chars: str) -> str:
+    """sorted, duplicate-free `List Char` literal"""
+    return "[" + ", ".join(lean_char(c) for c in sorted(set(chars))) + "]"
+
+
+@table("Ids")
+def ids_tables(repo: Path) -> str:
+    """C16: the two illegal-character sets (record ids / gene ids)"""
+    rec = literal(repo / "antismash/common/record_processing.py", "illegal_chars", within="fix_record_name_id")
+    cds = literal(repo / "antismash/common/secmet/features/cds_feature.py", "illegal_chars",
+                  within="_sanitise_id_value")
+    return ("namespace ASV.Generated.Ids\n\n"
+            "/-- `illegal_chars` of `record_processing.fix_record_name_id` -/\n"
+            f"def illegalRecordChars : List Char := {lean_char_list(''.join(rec))}\n\n"
+            "/-- `illegal_chars` of `cds_feature._sanitise_id_value` -/\n"
+            f"def illegalGeneChars : List Char := {lean_char_list(''.join(cds))}\n\n"
+            "end ASV.Generated.Ids\n")
+
+
+
+# ----------------------------------------------------------------------------- C15
+def _lean_chars(s: str) -> str:
+    return "[" + ", ".join("'" + ch + "'" for ch in s) + "]"
+
+
+@table("Orf")
+def orf_tables(repo: Path) -> str:
+    """START_CODONS / STOP_CODONS of common/all_orfs.py (from the tree under test) and the
+    complement map `Seq.reverse_complement` uses (from the installed Biopython)."""
+    path = repo / "antismash" / "common" / "all_orfs.py"
+    starts = list(literal(path, "START_CODONS"))
+    stops = list(literal(path, "STOP_CODONS"))
+    for codon in starts + stops:
+        if not (isinstance(codon, str) and codon.isascii() and codon.isalnum()):
+            raise ValueError(f"unexpected codon literal {codon!r}")
+    from Bio.Data.IUPACData import ambiguous_dna_complement
+    pairs = sorted(ambiguous_dna_complement.items())
+    pairs += [(a.lower(), b.lower()) for a, b in pairs]
+    comp = ", ".join(f"('{a}', '{b}')" for a, b in pairs)
+    return ("namespace ASV.Orf.Gen\n"
+            f"def startCodons : List (List Char) := [{', '.join(_lean_chars(c) for c in starts)}]\n"
+            f"def stopCodons : List (List Char) := [{', '.join(_lean_chars(c) for c in stops)}]\n"
+            f"def complementPairs : List (Char × Char) := [{comp}]\n"
+            "end ASV.Orf.Gen\n")
+
+
+
+@table("C13Docking")
+def c13_docking(repo: Path) -> str:
+    """the local `dockingdomains` set of filter_nonterminal_docking_domains"""
+    names = sorted(literal(repo / "antismash/detection/nrps_pks_domains/domain_identification.py",
+                           "dockingdomains", within="filter_nonterminal_docking_domains"))
+    return ("namespace ASV.Generated\n"
+            f"def dockingDomains : List String := {lean_str_list(names)}\n"
+            "end ASV.Generated\n")
